@@ -68,6 +68,10 @@ pub enum StdoutKind {
     /// write(2) beyond the limit fails with EFBIG, like a full or over-quota
     /// file system would fail it with ENOSPC/EDQUOT.
     FileLimited(u64),
+    /// The write end of a pipe that is in non-blocking mode and already full, with a reader that
+    /// takes nothing while the process runs (what a busy Node.js / ssh parent leaves behind):
+    /// write(2) fails with EAGAIN. The captured stdout is what the process managed to add.
+    FullNonBlockingPipe,
 }
 
 #[derive(Clone, Debug)]
@@ -242,8 +246,47 @@ fn open_pty() -> Option<(RawFd, File)> {
     }
 }
 
+/// What the process inherits for SIGPIPE.
+#[derive(Clone, Copy, Debug, PartialEq)]
+pub enum SigEnv {
+    Default,
+    /// SIGPIPE ignored (SIG_IGN survives exec): what most language runtimes leave to their children.
+    PipeIgnored,
+    /// SIGPIPE blocked in the signal mask (the mask survives exec): raising it does not terminate.
+    PipeBlocked,
+}
+
+thread_local! {
+    static SIG_ENV: std::cell::Cell<SigEnv> = std::cell::Cell::new(SigEnv::Default);
+}
+
+/// Like `run`, with the given SIGPIPE disposition / mask inherited by the process.
+pub fn run_sig(r: Run, env: SigEnv) -> ProcOut {
+    let _g = EXCLUSIVE.read().unwrap_or_else(|e| e.into_inner());
+    SIG_ENV.with(|c| c.set(env));
+    let out = run_inner(r, None);
+    SIG_ENV.with(|c| c.set(SigEnv::Default));
+    out
+}
+
+/// `run_sig` while no other process of this harness is being spawned or running (see `run_exclusive`).
+pub fn run_sig_exclusive(r: Run, env: SigEnv) -> ProcOut {
+    let _g = EXCLUSIVE.write().unwrap_or_else(|e| e.into_inner());
+    std::thread::sleep(Duration::from_millis(100));
+    SIG_ENV.with(|c| c.set(env));
+    let out = run_inner(r, None);
+    SIG_ENV.with(|c| c.set(SigEnv::Default));
+    out
+}
+
 /// Ordinary runs share this lock; `run_exclusive` takes it alone.
 static EXCLUSIVE: std::sync::RwLock<()> = std::sync::RwLock::new(());
+
+/// For process drivers outside this module: hold this while a child of theirs runs, so that
+/// `run_exclusive` keeps its meaning.
+pub fn shared_guard() -> std::sync::RwLockReadGuard<'static, ()> {
+    EXCLUSIVE.read().unwrap_or_else(|e| e.into_inner())
+}
 
 pub fn run(r: Run) -> ProcOut {
     let _g = EXCLUSIVE.read().unwrap_or_else(|e| e.into_inner());
@@ -306,6 +349,28 @@ fn run_inner(r: Run, arg0: Option<&str>) -> ProcOut {
     }
     let mut pty_master: Option<RawFd> = None;
     let mut out_file: Option<PathBuf> = None;
+    // (read end, number of filler bytes) of a pre-filled non-blocking pipe
+    let mut full_pipe: Option<(File, usize)> = None;
+    match SIG_ENV.with(|c| c.get()) {
+        SigEnv::Default => {}
+        env => {
+            use std::os::unix::process::CommandExt as _;
+            // SAFETY: only async-signal-safe calls between fork and exec
+            unsafe {
+                cmd.pre_exec(move || {
+                    if env == SigEnv::PipeIgnored {
+                        libc::signal(libc::SIGPIPE, libc::SIG_IGN);
+                    } else {
+                        let mut set: libc::sigset_t = std::mem::zeroed();
+                        libc::sigemptyset(&mut set);
+                        libc::sigaddset(&mut set, libc::SIGPIPE);
+                        libc::sigprocmask(libc::SIG_BLOCK, &set, std::ptr::null_mut());
+                    }
+                    Ok(())
+                });
+            }
+        }
+    }
     match &r.stdout {
         StdoutKind::Pipe | StdoutKind::CloseAfter(_) => {
             cmd.stdout(Stdio::piped());
@@ -319,6 +384,34 @@ fn run_inner(r: Run, arg0: Option<&str>) -> ProcOut {
                 }
                 Err(e) => return ProcOut { status: Status::SpawnError(e.to_string()), stdout: vec![], stderr: vec![] },
             }
+        }
+        StdoutKind::FullNonBlockingPipe => {
+            let mut fds = [0 as RawFd; 2];
+            if unsafe { libc::pipe2(fds.as_mut_ptr(), libc::O_CLOEXEC) } != 0 {
+                return ProcOut { status: Status::SpawnError("pipe2 failed".into()), stdout: vec![], stderr: vec![] };
+            }
+            let (rd, wr) = unsafe { (File::from_raw_fd(fds[0]), File::from_raw_fd(fds[1])) };
+            let mut filler = 0usize;
+            unsafe {
+                // non-blocking is a property of the open file description: the child inherits it
+                let fl = libc::fcntl(fds[1], libc::F_GETFL);
+                libc::fcntl(fds[1], libc::F_SETFL, fl | libc::O_NONBLOCK);
+                let chunk = [0u8; 4096];
+                loop {
+                    let n = libc::write(fds[1], chunk.as_ptr() as *const libc::c_void, chunk.len());
+                    if n <= 0 {
+                        break;
+                    }
+                    filler += n as usize;
+                }
+                // top up byte by byte so that not even a short write fits
+                let one = [0u8; 1];
+                while libc::write(fds[1], one.as_ptr() as *const libc::c_void, 1) == 1 {
+                    filler += 1;
+                }
+            }
+            cmd.stdout(Stdio::from(wr));
+            full_pipe = Some((rd, filler));
         }
         StdoutKind::FileLimited(limit) => {
             use std::os::unix::process::CommandExt as _;
@@ -481,6 +574,12 @@ fn run_inner(r: Run, arg0: Option<&str>) -> ProcOut {
     if let Some(p) = out_file {
         stdout = std::fs::read(&p).unwrap_or_default();
         let _ = std::fs::remove_file(&p);
+    }
+    if let Some((mut rd, filler)) = full_pipe {
+        // the process is gone and the parent's write end was dropped with `cmd`: drain to EOF
+        let mut all = vec![];
+        let _ = rd.read_to_end(&mut all);
+        stdout = all.split_off(filler.min(all.len()));
     }
     let status = if timed_out.load(Ordering::Relaxed) {
         Status::Timeout
